@@ -47,6 +47,14 @@ def check(ck):
     r01_10(ck)
     r01_12(ck)
     r01_13(ck)
+    r01_14(ck, rf)
+    from . import c08
+    ck.shared('R01.15', 'an increment reaches exactly the variable it was '
+              'returned for, through the declared updater: updaters do not '
+              'modify the current value in place (an object shared with '
+              'another variable would receive the update too) and an '
+              'updater named in one update is not kept for later ones',
+              c08.r08_7_lookup, c08.r08_8)
 
 
 # ------------------------------------------------------------------ R01.1
@@ -709,7 +717,7 @@ def r01_6(ck, rf):
                 continue
             if fi.qual == f.qual and isinstance(val, ast.Name):
                 atoms = c.guards(c.node(stmt))
-                ok = ('<=', val.id, 'end_time') in atoms
+                ok = ('<=', val.id, rf.end_name) in atoms
                 ck.require(ok, 'R01.6', fi, stmt,
                            'the stored due time is the value guarded by '
                            '<= end_time',
@@ -1077,6 +1085,79 @@ def r01_10(ck):
     ck.rules.pop('R02.1', None)
     c13.r13_1(ck, only=('update_condition', 'next_update',
                         'calculate_timestep'), rule='R01.11')
+
+
+def iteration_accumulators(rf):
+    """Locals of run_for that are grown or folded inside the scheduler loop
+    (append / x = f(x, ..) / x += ..) and whose content decides what is
+    scheduled or applied: the arguments of _advance_quiet_paths and
+    _send_updates, the lists iterated to write front entries, and whatever
+    the new clock value is computed from.  {name: [mutating statements]}."""
+    f = rf.fnode
+    defs = local_defs(f)
+    acc = {}
+    for name, ds in defs.items():
+        muts = []
+        for d in ds:
+            if not within(d.stmt, rf.while_loop):
+                continue
+            if d.kind in ('mutate', 'aug'):
+                muts.append(d.stmt)
+            elif d.kind == 'assign' and d.value is not None and \
+                    name in A.names_in(d.value):
+                muts.append(d.stmt)
+        if muts:
+            acc[name] = muts
+    sinks = []
+    for c in A.calls_in(rf.while_loop):
+        if A.call_name(c) in ('_advance_quiet_paths', '_send_updates'):
+            sinks += [(a, c) for a in c.args]
+    for n in A.walk_no_nested(rf.while_loop):
+        if isinstance(n, ast.For) and any(
+                isinstance(s2, ast.Assign) and 'self.front' in A.unparse(
+                    s2.targets[0]) for s2 in A.walk_no_nested(n)):
+            sinks.append((n.iter, n))
+        if isinstance(n, ast.Assign) and A.is_self_attr(
+                n.targets[0], 'global_time'):
+            sinks.append((n.value, n))
+    out = {}
+    for name, muts in acc.items():
+        if any(derives(f, e, lambda x: A.is_name(x, name), at=at)
+               for e, at in sinks):
+            out[name] = muts
+    return out
+
+
+def r01_14(ck, rf, rule='R01.14'):
+    ck.rule(rule, 'what one scheduler iteration collects (quiet paths, due '
+            'updates, the minimal step) is reset in that iteration: every '
+            'such accumulator is re-initialised inside the loop, before it '
+            'is grown - nothing is carried over from an earlier iteration')
+    f = rf.fi
+    cfg = rf.cfg
+    accs = iteration_accumulators(rf)
+    n = 0
+    for name, muts in sorted(accs.items()):
+        resets = [d for d in local_defs(rf.fnode).get(name, [])
+                  if d.kind == 'assign' and d.value is not None
+                  and name not in A.names_in(d.value)]
+        inside = [d for d in resets if within(d.stmt, rf.while_loop)]
+        for m in muts:
+            n += 1
+            rn = {cfg.node(d.stmt) for d in inside} - {None}
+            be = cfg.loops[id(rf.while_loop)]['body_entry']
+            ok = bool(rn) and (be in rn or cfg.must_pass(
+                be, cfg.node(m), rn,
+                within=cfg.loop_nodes(rf.while_loop)))
+            ck.require(ok, rule, f, m,
+                       '%s is reset in every iteration before it is grown'
+                       % name,
+                       '%s is grown in the scheduler loop but initialised '
+                       'outside it (or not on every path): entries of an '
+                       'earlier iteration are acted on again - a process '
+                       'that was quiet then has its pending update applied '
+                       'early' % name, m)
+    ck.floor(rule, n, 3, 'accumulator growth sites in the scheduler loop')
 
 
 def r01_12(ck):
